@@ -130,6 +130,9 @@ fn entry_tasks(r: &mut Rng) -> Vec<Task> {
     let h = |fam, bits| HashId { fam, bits, out: if fam == Fam::Skein { 32 } else { bits as usize / 8 } };
     if small {
         for id in [h(Fam::Groestl, 256), h(Fam::Groestl, 512), h(Fam::Blake, 256), h(Fam::Jh, 256)] {
+            if id.fam == Fam::Groestl && !cfg!(target_arch = "x86_64") {
+                continue;
+            }
             v.push(make_hash(r, id, 40));
         }
         v.push(make_cipher(r, "ChaCha20", 70));
